@@ -80,11 +80,12 @@ def lru_stems_from_parsed_url(parsed_url, suffix_aware=True):
         lru.append("f:" + fragment)
 
     # User
-    if user:
+    # NOTE: an empty user or password is not the same as none ("u:@host")
+    if user is not None:
         lru.append("u:" + user)
 
     # Password
-    if password:
+    if password is not None:
         lru.append("w:" + password)
     return lru
 
